@@ -18,6 +18,7 @@ CNodes == {Cfg.nodes[i] : i \in DOMAIN Cfg.nodes}
 CP == Cfg.nodes[1]
 COps == [i \in DOMAIN Cfg.keys |-> [k |-> Cfg.keys[i]]]      \* only the key universe is taken from it
 CInit == <<>>
+CStrategy == Cfg.strategy
 
 VARIABLE l
 tvars == <<store, replq, req, rsp, pend, next, clock, sent, ghost, sched, l>>
